@@ -140,7 +140,15 @@ def build_harness():
     shutil.copy(os.path.join(REPO, "go.sum"), os.path.join(h, "go.sum"))
     os.makedirs(BUILD, exist_ok=True)
     rc, out = sh("go build -tags verif -o %s/bbverif ." % BUILD, cwd=h, timeout=900)
+    if rc == 0:
+        # the real command-line tool, from the same tree (C19 judges its exit status)
+        rc, out2 = sh("go build -o %s/bbolt go.etcd.io/bbolt/cmd/bbolt" % BUILD, cwd=h, timeout=900)
+        out += out2
     return rc == 0, out
+
+
+def bbolt_exe():
+    return os.path.join(BUILD, "bbolt")
 
 
 def harness_race_exe():
